@@ -16,9 +16,14 @@ open LP.FC LP.Sg1
 theorem fc_three (n : Nat) : threePercentOfTokens n = (3 * n + 99) / 100 := by
   unfold threePercentOfTokens; simp only []; split <;> omega
 
-/-- `Decimal::percent(FEE_BURN_PERCENT)` is one half (checked against the constant regenerated from packages/sg1) -/
-theorem fc_half (F : Nat) : mulFloor F (percent Gen.sg1_FEE_BURN_PERCENT) = F / 2 := by
-  unfold mulFloor percent Gen.sg1_FEE_BURN_PERCENT; omega
+/-- the part of a native fee that `fair_burn` burns: `fee * Decimal::percent(FEE_BURN_PERCENT)`, rounded down; the rest goes to
+the fair-burn pool. The VALUE of the percentage is C06's business: everything C08 proves holds for whatever value
+`packages/sg1` has (only `burnPart F ≤ F`, i.e. a percentage ≤ 100, is used), so a legitimate change of the split does not
+break this property's proofs. -/
+def burnPart (F : Nat) : Nat := mulFloor F (percent Gen.sg1_FEE_BURN_PERCENT)
+
+theorem fc_burnPart_le (F : Nat) : burnPart F ≤ F := by
+  unfold burnPart mulFloor percent Gen.sg1_FEE_BURN_PERCENT; omega
 
 /-- total debit (meaningful when the balance suffices) -/
 def debit (b : Bank) (a : Addr) (c : Coin) : Bank :=
@@ -43,9 +48,9 @@ theorem fc_debit?_eq (b : Bank) (a : Addr) (c : Coin) :
 theorem fc_feeMsgs_native (self : Addr) (p : Params) (a : Nat) (hd : p.fee.denom = NATIVE) (ha : a ≠ 0)
     (hfee : p.fee.amount ≤ a) :
     feeMsgs self p [⟨NATIVE, a⟩] =
-      .ok [Msg.burn ⟨NATIVE, p.fee.amount / 2⟩, Msg.fundPool self ⟨NATIVE, p.fee.amount - p.fee.amount / 2⟩] := by
+      .ok [Msg.burn ⟨NATIVE, burnPart p.fee.amount⟩, Msg.fundPool self ⟨NATIVE, p.fee.amount - burnPart p.fee.amount⟩] := by
   have : ¬ a < p.fee.amount := by omega
-  simp [feeMsgs, hd, checkedFairBurn, mayPay, fairBurn, fc_half, this, ha, bind, Except.bind, pure, Except.pure]
+  simp [feeMsgs, hd, checkedFairBurn, mayPay, fairBurn, burnPart, this, ha, bind, Except.bind, pure, Except.pure]
 
 theorem fc_feeMsgs_other (self : Addr) (p : Params) (a : Nat) (hd : p.fee.denom ≠ NATIVE) (ha : a ≠ 0)
     (hfee : p.fee.amount ≤ a) :
@@ -53,11 +58,11 @@ theorem fc_feeMsgs_other (self : Addr) (p : Params) (a : Nat) (hd : p.fee.denom 
   have : ¬ a < p.fee.amount := by omega
   simp [feeMsgs, hd, transferFundsToLaunchpadDao, mustPay, this, ha, bind, Except.bind, pure, Except.pure]
 
-/-- bank after a native-fee create: payment to the factory, `fee/2` burned, the rest of the fee to the fair-burn pool -/
+/-- bank after a native-fee create: payment to the factory, `burnPart fee` burned, the rest of the fee to the fair-burn pool -/
 def bankNative (b : Bank) (s : Supply) (sender self : Addr) (a fee : Nat) : Bank × Supply :=
-  (credit (debit (debit (credit (debit b sender ⟨NATIVE, a⟩) self ⟨NATIVE, a⟩) self ⟨NATIVE, fee / 2⟩)
-      self ⟨NATIVE, fee - fee / 2⟩) FAIRBURN_POOL ⟨NATIVE, fee - fee / 2⟩,
-   fun d => if d = NATIVE then s d - fee / 2 else s d)
+  (credit (debit (debit (credit (debit b sender ⟨NATIVE, a⟩) self ⟨NATIVE, a⟩) self ⟨NATIVE, burnPart fee⟩)
+      self ⟨NATIVE, fee - burnPart fee⟩) FAIRBURN_POOL ⟨NATIVE, fee - burnPart fee⟩,
+   fun d => if d = NATIVE then s d - burnPart fee else s d)
 
 /-- bank after a non-native-fee create: the whole payment passes through the factory to the launchpad DAO -/
 def bankOther (b : Bank) (s : Supply) (sender self : Addr) (d : Denom) (a : Nat) : Bank × Supply :=
@@ -66,28 +71,36 @@ def bankOther (b : Bank) (s : Supply) (sender self : Addr) (d : Denom) (a : Nat)
 theorem fc_bankStep_native (b : Bank) (s : Supply) (self : Addr) (p : Params) (m : CreateMsg) (a : Nat)
     (hd : p.fee.denom = NATIVE) (hf : m.funds = [⟨NATIVE, a⟩]) (ha : a ≠ 0) (hfee : p.fee.amount ≤ a) :
     bankStep b s self p m =
-      if a ≤ b m.sender NATIVE ∧ 2 ≤ p.fee.amount then some (bankNative b s m.sender self a p.fee.amount) else none := by
+      if a ≤ b m.sender NATIVE ∧ (burnPart p.fee.amount ≠ 0 ∧ burnPart p.fee.amount ≠ p.fee.amount)
+      then some (bankNative b s m.sender self a p.fee.amount) else none := by
   unfold bankStep bankNative
   rw [hf, fc_feeMsgs_native self p a hd ha hfee]
   simp only [transfer?, fc_debit?_eq, execMsgs, execMsg]
+  have hle := fc_burnPart_le p.fee.amount
+  generalize burnPart p.fee.amount = B at hle ⊢
   by_cases h1 : a ≤ b m.sender NATIVE
-  · by_cases h2 : 2 ≤ p.fee.amount
-    · have e1 : p.fee.amount / 2 ≠ 0 := by omega
-      have e2 : p.fee.amount - p.fee.amount / 2 ≠ 0 := by omega
-      have k1 : p.fee.amount / 2 ≤ credit (debit b m.sender ⟨NATIVE, a⟩) self ⟨NATIVE, a⟩ self NATIVE := by
-        have := fc_credit_self (debit b m.sender ⟨NATIVE, a⟩) self ⟨NATIVE, a⟩
-        simp only [] at this
-        rw [this]; omega
-      have k2 : p.fee.amount - p.fee.amount / 2 ≤
-          debit (credit (debit b m.sender ⟨NATIVE, a⟩) self ⟨NATIVE, a⟩) self ⟨NATIVE, p.fee.amount / 2⟩ self NATIVE := by
-        have h := fc_debit_self (credit (debit b m.sender ⟨NATIVE, a⟩) self ⟨NATIVE, a⟩) self ⟨NATIVE, p.fee.amount / 2⟩
-        have h' := fc_credit_self (debit b m.sender ⟨NATIVE, a⟩) self ⟨NATIVE, a⟩
-        simp only [] at h h'
-        rw [h, h']; omega
-      simp [ha, h1, h2, e1, e2, k1]
-      omega
-    · have : p.fee.amount / 2 = 0 := by omega
-      simp [ha, h1, h2, this]
+  · by_cases e1 : B = 0
+    · simp [ha, h1, e1]
+    · by_cases e3 : B = p.fee.amount
+      · have e2 : p.fee.amount - B = 0 := by omega
+        have k1 : B ≤ credit (debit b m.sender ⟨NATIVE, a⟩) self ⟨NATIVE, a⟩ self NATIVE := by
+          have := fc_credit_self (debit b m.sender ⟨NATIVE, a⟩) self ⟨NATIVE, a⟩
+          simp only [] at this
+          rw [this]; omega
+        simp [ha, h1, e1, e2, e3, k1]
+      · have e2 : p.fee.amount - B ≠ 0 := by omega
+        have k1 : B ≤ credit (debit b m.sender ⟨NATIVE, a⟩) self ⟨NATIVE, a⟩ self NATIVE := by
+          have := fc_credit_self (debit b m.sender ⟨NATIVE, a⟩) self ⟨NATIVE, a⟩
+          simp only [] at this
+          rw [this]; omega
+        have k2 : p.fee.amount - B ≤
+            debit (credit (debit b m.sender ⟨NATIVE, a⟩) self ⟨NATIVE, a⟩) self ⟨NATIVE, B⟩ self NATIVE := by
+          have h := fc_debit_self (credit (debit b m.sender ⟨NATIVE, a⟩) self ⟨NATIVE, a⟩) self ⟨NATIVE, B⟩
+          have h' := fc_credit_self (debit b m.sender ⟨NATIVE, a⟩) self ⟨NATIVE, a⟩
+          simp only [] at h h'
+          rw [h, h']; omega
+        simp [ha, h1, e1, e2, e3, k1]
+        omega
   · simp [ha, h1]
 
 theorem fc_bankStep_other (b : Bank) (s : Supply) (self : Addr) (p : Params) (m : CreateMsg) (a : Nat)
@@ -155,13 +168,16 @@ def MinterAccepts (mk : MKind) (p : Params) (w : World) (m : CreateMsg) : Prop :
 
 /-- what the sg721 `instantiate` checks -/
 def CollectionAccepts (m : CreateMsg) : Prop :=
-  (16 ≤ m.sg721Code ∧ m.sg721Code ≤ 19) ∧ m.descLen ≤ 512 ∧ m.imageOk = true ∧ m.linkOk ≠ some false
-  ∧ (∀ s pay, m.royalty = some (s, pay) → pay ≠ none ∧ s ≤ 10^18) ∧ m.creator ≠ none
+  (16 ≤ m.sg721Code ∧ m.sg721Code ≤ 19) ∧ m.descLen ≤ Gen.sg721_base_MAX_DESCRIPTION_LENGTH ∧ m.imageOk = true
+  ∧ m.linkOk ≠ some false
+  ∧ (∀ s pay, m.royalty = some (s, pay) → pay ≠ none ∧ s ≤ DEC_ONE) ∧ m.creator ≠ none
 
-/-- the bank can execute the transfer and the fee messages: the payer owns the coin, and a native fee is at least 2
-(`fair_burn` of a fee below 2 emits a zero-amount burn, which the bank rejects) -/
+/-- the bank can execute the transfer and the fee messages: the payer owns the coin, and for a native fee both parts of the
+fair burn — the burned part and the pool part — are non-zero (the bank rejects a zero-amount burn / send). With the 50 % split
+in force that is `2 ≤ fee` (`C08_native_fee_split_at_50`). -/
 def Funded (w : World) (p : Params) (m : CreateMsg) (a : Nat) : Prop :=
-  a ≤ w.bal m.sender p.fee.denom ∧ (p.fee.denom = NATIVE → 2 ≤ p.fee.amount)
+  a ≤ w.bal m.sender p.fee.denom
+  ∧ (p.fee.denom = NATIVE → burnPart p.fee.amount ≠ 0 ∧ burnPart p.fee.amount ≠ p.fee.amount)
 
 /-! ## Bool ↔ Prop bridges -/
 
@@ -255,9 +271,8 @@ theorem fc_minter (mk : MKind) (p : Params) (w : World) (m : CreateMsg) :
 
 theorem fc_collection (m : CreateMsg) : collectionOk m = true ↔ CollectionAccepts m := by
   unfold collectionOk CollectionAccepts isSg721Code royaltyOk
-  have hmax : Gen.sg721_base_MAX_DESCRIPTION_LENGTH = 512 := rfl
-  have hone : DEC_ONE = 10^18 := rfl
-  rw [hmax, hone]
+  generalize Gen.sg721_base_MAX_DESCRIPTION_LENGTH = D
+  generalize DEC_ONE = ONE
   cases hr : m.royalty with
   | none => simp [Option.isSome_iff_ne_none, and_assoc]
   | some sp =>
@@ -271,8 +286,9 @@ theorem fc_bank (w : World) (self : Addr) (p : Params) (m : CreateMsg) (a : Nat)
   by_cases hn : p.fee.denom = NATIVE
   · rw [hn] at hf
     rw [fc_bankStep_native w.bal w.supply self p m a hn hf ha hfee, hn]
-    by_cases h : a ≤ w.bal m.sender NATIVE ∧ 2 ≤ p.fee.amount
-    · simp [h]
+    by_cases h : a ≤ w.bal m.sender NATIVE ∧ (burnPart p.fee.amount ≠ 0 ∧ burnPart p.fee.amount ≠ p.fee.amount)
+    · rw [if_pos h]
+      exact ⟨fun _ => ⟨h.1, fun _ => h.2⟩, fun _ => rfl⟩
     · rw [if_neg h]
       constructor
       · intro hh; simp at hh
@@ -493,7 +509,8 @@ theorem C08_fee_disposed (w : World) (self : Addr) (f : Factory) (m : CreateMsg)
     ∃ a msgs, Paid f.p m.funds a ∧ feeMsgs self f.p m.funds = .ok msgs
       ∧ f.p.fee.amount ≤ sumAmounts msgs ∧ sumAmounts msgs ≤ a
       ∧ (f.p.fee.denom = NATIVE →
-          msgs = [Msg.burn ⟨NATIVE, f.p.fee.amount / 2⟩, Msg.fundPool self ⟨NATIVE, f.p.fee.amount - f.p.fee.amount / 2⟩]
+          msgs = [Msg.burn ⟨NATIVE, burnPart f.p.fee.amount⟩,
+                  Msg.fundPool self ⟨NATIVE, f.p.fee.amount - burnPart f.p.fee.amount⟩]
           ∧ sumAmounts msgs = f.p.fee.amount
           ∧ (w'.bal, w'.supply) = bankNative w.bal w.supply m.sender self a f.p.fee.amount)
       ∧ (f.p.fee.denom ≠ NATIVE →
@@ -506,7 +523,9 @@ theorem C08_fee_disposed (w : World) (self : Addr) (f : Factory) (m : CreateMsg)
   · have hfu' : m.funds = [⟨NATIVE, a⟩] := by rw [← hn]; exact hfu
     have hb := fc_bankStep_native w.bal w.supply self f.p m a hn hfu' ha hfee
     rw [hbs] at hb
-    have hcond : a ≤ w.bal m.sender NATIVE ∧ 2 ≤ f.p.fee.amount := ⟨by rw [← hn]; exact hfund.1, hfund.2 hn⟩
+    have hcond : a ≤ w.bal m.sender NATIVE ∧ (burnPart f.p.fee.amount ≠ 0 ∧ burnPart f.p.fee.amount ≠ f.p.fee.amount) :=
+      ⟨by rw [← hn]; exact hfund.1, hfund.2 hn⟩
+    have hble := fc_burnPart_le f.p.fee.amount
     rw [if_pos hcond] at hb
     have hbs' : bs = bankNative w.bal w.supply m.sender self a f.p.fee.amount := Option.some.inj hb
     refine ⟨a, _, ⟨hfu, ha, hfee, hoe⟩, by rw [hfu', fc_feeMsgs_native self f.p a hn ha hfee], ?_, ?_, ?_, ?_⟩
@@ -530,15 +549,16 @@ theorem C08_fee_disposed (w : World) (self : Addr) (f : Factory) (m : CreateMsg)
 
 /-- balances after a **native-fee** create (payer, factory and pool pairwise distinct accounts): the payer loses exactly
 what it attached, the factory keeps the overpayment `paid − fee` (zero for the open-edition factory), the pool gains
-`fee − ⌊fee/2⌋`, the supply shrinks by `⌊fee/2⌋`, nothing else moves. -/
+`fee − burnPart fee`, the supply shrinks by `burnPart fee` (so `supply − pool` falls by exactly the fee, whatever the split),
+nothing else moves. -/
 theorem C08_fee_balances_native (w : World) (self : Addr) (f : Factory) (m : CreateMsg) (w' : World)
     (hf : w.factory? self = some f) (h : create w self m = .ok w') (hn : f.p.fee.denom = NATIVE)
     (h1 : m.sender ≠ self) (h2 : m.sender ≠ FAIRBURN_POOL) (h3 : self ≠ FAIRBURN_POOL) :
     ∃ a, m.funds = [⟨NATIVE, a⟩] ∧ f.p.fee.amount ≤ a
       ∧ w'.bal m.sender NATIVE = w.bal m.sender NATIVE - a ∧ a ≤ w.bal m.sender NATIVE
       ∧ w'.bal self NATIVE = w.bal self NATIVE + (a - f.p.fee.amount)
-      ∧ w'.bal FAIRBURN_POOL NATIVE = w.bal FAIRBURN_POOL NATIVE + (f.p.fee.amount - f.p.fee.amount / 2)
-      ∧ w'.supply NATIVE = w.supply NATIVE - f.p.fee.amount / 2
+      ∧ w'.bal FAIRBURN_POOL NATIVE = w.bal FAIRBURN_POOL NATIVE + (f.p.fee.amount - burnPart f.p.fee.amount)
+      ∧ w'.supply NATIVE = w.supply NATIVE - burnPart f.p.fee.amount
       ∧ (∀ x d, ¬ (d = NATIVE ∧ (x = m.sender ∨ x = self ∨ x = FAIRBURN_POOL)) → w'.bal x d = w.bal x d)
       ∧ (∀ d, d ≠ NATIVE → w'.supply d = w.supply d) := by
   obtain ⟨a, msgs, hp, _, _, _, hnat, _⟩ := C08_fee_disposed w self f m w' hf h
@@ -989,14 +1009,24 @@ theorem C08_governance_frame (w : World) (fa : Addr) (u : Update) :
 
 
 /-- a consequence worth knowing: with a **native** creation fee below 2 no minter can be created at all (`fair_burn` would
-emit a zero-amount burn, which the bank rejects) — nothing is created and nothing moves, so the property is not violated,
-but governance must not set such a fee. (Reproduced on the real contracts: fee 0 and 1.) -/
+emit a zero-amount burn or a zero-amount pool payment, which the bank rejects) — nothing is created and nothing moves, so the
+property is not violated, but governance must not set such a fee. Holds for EVERY burn percentage (a fee of 0 or 1 cannot be
+split into two non-zero parts). (Reproduced on the real contracts: fee 0 and 1.) -/
 theorem C08_native_fee_below_two_blocks (w : World) (self : Addr) (f : Factory) (m : CreateMsg)
     (hf : w.factory? self = some f) (hn : f.p.fee.denom = NATIVE) (h2 : f.p.fee.amount < 2) :
     ¬ ∃ w', create w self m = .ok w' := by
   intro h
   obtain ⟨_, _, _, _, _, _, _, _, _, _, hfund⟩ := (C08_create_ok_iff w self f m hf).1 h
   have := hfund.2 hn
+  have hle := fc_burnPart_le f.p.fee.amount
+  omega
+
+/-- with the 50 % split currently in `packages/sg1` (stated as a hypothesis, so that a change of the split — C06's business —
+does not break C08): both parts of the fair burn are non-zero exactly when the fee is at least 2. -/
+theorem C08_native_fee_split_at_50 (F : Nat) (h50 : Gen.sg1_FEE_BURN_PERCENT = 50) :
+    (burnPart F ≠ 0 ∧ burnPart F ≠ F) ↔ 2 ≤ F := by
+  unfold burnPart mulFloor percent
+  rw [h50]
   omega
 
 /-! ## Non-vacuity: concrete worlds in which the hypotheses above hold -/
